@@ -1462,16 +1462,14 @@ aiff_write_header (SF_PRIVATE *psf, int calc_length)
 	if (psf->channel_map && paiff->chanmap_tag)
 		psf_binheader_writef (psf, "Em4444", BHWm (CHAN_MARKER), BHW4 (12), BHW4 (paiff->chanmap_tag), BHW4 (0), BHW4 (0)) ;
 
-	/* Check if there's a INST chunk to write */
-	if (psf->instrument != NULL && psf->cues != NULL)
-	{	/* Huge chunk of code removed here because it had egregious errors that were
-		** not detected by either the compiler or the tests. It was found when updating
-		** the way psf_binheader_writef works.
-		*/
-		}
-	else if (psf->instrument == NULL && psf->cues != NULL)
-	{	/* There are cues but no loops */
-		uint32_t idx ;
+	/*
+	** The INST chunk (which refers to its loop points through markers of the
+	** MARK chunk) is not written : the code that did it was removed because it
+	** had egregious errors. The cue points are written with or without an
+	** instrument.
+	*/
+	if (psf->cues != NULL)
+	{	uint32_t idx ;
 		int totalStringLength = 0, stringLength ;
 
 		/* Here we count how many bytes will the pascal strings need */
